@@ -151,6 +151,17 @@ impl Contract<Empty> for Recorded {
 // --------------------------------------------------------------------------------------- world
 pub const H0: u64 = 1000; // origin of the model clock on the chain
 pub const T0: u64 = 1_600_000_000;
+/// the model clock counts ticks of 0.1 s, so that sub-second block times (and any truncation of them) are exercised
+pub const TICKS: u64 = 10;
+pub const TICK_NANOS: u64 = 100_000_000;
+pub fn chain_time(t: u64) -> Timestamp {
+    Timestamp::from_nanos((T0 * TICKS + t) * TICK_NANOS)
+}
+/// a duration given in ticks as whole seconds (contract configurations take seconds)
+pub fn ticks_to_secs(v: u64) -> u64 {
+    assert!(v % TICKS == 0, "time-based durations must be whole seconds ({v} ticks)");
+    v / TICKS
+}
 
 pub type IbcApp = App<
     cw_multi_test::BankKeeper,
@@ -190,7 +201,7 @@ impl World {
         let chain_id = self.app.block_info().chain_id;
         self.app.set_block(BlockInfo {
             height: H0 + h,
-            time: Timestamp::from_seconds(T0 + t),
+            time: chain_time(t),
             chain_id,
         });
     }
@@ -371,7 +382,7 @@ pub fn exp_to_chain(e: &Value) -> cw_utils::Expiration {
     let v = e.get("v").and_then(|x| x.as_u64()).unwrap_or(0);
     match k {
         "h" => cw_utils::Expiration::AtHeight(H0 + v),
-        "t" => cw_utils::Expiration::AtTime(Timestamp::from_seconds(T0 + v)),
+        "t" => cw_utils::Expiration::AtTime(chain_time(v)),
         _ => cw_utils::Expiration::Never {},
     }
 }
@@ -380,7 +391,11 @@ pub fn exp_to_chain(e: &Value) -> cw_utils::Expiration {
 pub fn exp_to_model(e: &cw_utils::Expiration) -> Value {
     match e {
         cw_utils::Expiration::AtHeight(h) => json!({"k":"h","v": h.saturating_sub(H0)}),
-        cw_utils::Expiration::AtTime(t) => json!({"k":"t","v": t.seconds().saturating_sub(T0)}),
+        cw_utils::Expiration::AtTime(t) => {
+            // ticks since the origin, rounded up: expired(now) <=> now >= release, and now is always on a tick
+            let n = t.nanos().saturating_sub(T0 * TICKS * TICK_NANOS);
+            json!({"k":"t","v": (n + TICK_NANOS - 1) / TICK_NANOS})
+        }
         cw_utils::Expiration::Never {} => json!({"k":"never","v":0}),
     }
 }
